@@ -345,6 +345,7 @@ def run(chk, repo, tier):
                               'the static input "results" is interpreted by dask as the key of the sink task',
                               line=c.lineno, witness='the task receives the workflow result (or a cycle error)')
     run_more(chk, repo)
+    run_w8(chk, repo)
 
 
 def run_more(chk, repo):
@@ -396,3 +397,34 @@ def run_more(chk, repo):
                       'a task added with an empty predecessor list is not entered as a node: it appears later (when first used '
                       'as a predecessor) at another position, or never', line=at.node.lineno, path=cfg.describe(p or [])[-6:],
                       witness='base[], alt[], refit[alt], compare[base, refit]: compare receives (refit, base)')
+
+
+def run_w8(chk, repo):
+    W8 = chk.rule('W8', 'dask keys carry a process-wide unique component (sub-workflows are submitted to the same scheduler '
+                        'and only their sink is renamed)', floor=1)
+    wm = repo.module('pharmpy.workflows.workflow')
+    wf = wm.classes.get('Workflow')
+    f = wf.methods.get('as_dask_dict') if wf else None
+    cm = repo.module('pharmpy.workflows.dispatchers.local_dask.call')
+    cw = cm.functions.get('call_workflow')
+    if f is None or cw is None:
+        raise AnalysisError('as_dask_dict / call_workflow not found')
+    # the contract is needed as long as call_workflow hands the sub-graph to a shared client
+    shared = any(dotted(c.func) in ('get_client',) for c in calls_in(cw.node))
+    chk.instance(W8, f'call_workflow submits sub-workflows to the running client: {shared}')
+    if not shared:
+        return
+    keys = [n for n in walk_no_nested(f.node) if isinstance(n, ast.Assign) and isinstance(n.targets[0], ast.Subscript)
+            and isinstance(n.value, ast.JoinedStr)]
+    if not keys:
+        raise AnalysisError('W8: key construction of as_dask_dict not recognised')
+    for k in keys:
+        uniq = any(isinstance(c, ast.Call) and (dotted(c.func) or '') in ('uuid.uuid4', 'uuid4', 'uuid.uuid1', 'secrets.token_hex')
+                   for c in ast.walk(k.value))
+        chk.instance(W8, f'as_dask_dict: `{unparse(k)[:70]}` contains a uuid: {uniq}')
+        if not uniq:
+            chk.violation(W8, wm.rel, f.qualname, unparse(k)[:100],
+                          'keys are unique inside one workflow only; a sub-workflow task with the same name and position as a '
+                          'task of the caller resolves to the caller\'s stored result', line=k.lineno,
+                          witness='distributed dispatcher, a task that calls context.call_workflow with a sub-workflow whose '
+                                  'task names and indices coincide with the outer workflow: the sub tasks are never run')
